@@ -33,7 +33,8 @@ RULE = ('(a) isolated pipeline: the real LuaFormatterWriter._get_code_for_spaces
         'comment + distinct (program, layout pair) observations inside the domain of holds_C10')
 PARTIAL = ('proved at program level (parser trees inside the writer domain of C09_aligned, tidy token codes): C10_shape (no trailing '
            'white space, no double blank line in the whole luafmt output), C10_indent_counter_partial (a code token that begins a '
-           'line is preceded by exactly indentwidth x n spaces, n >= 0 the writer nesting counter at its white-space run), '
+           'line is preceded by exactly indentwidth x n spaces, n >= 0 the writer nesting counter at its white-space run), C10_first_line '
+           '(what begins the first line of the output sits at column 0), '
            'C10_indent_link (n = the reference depth token_depth of Spec/TokenDepth.v at the token the run ends at) and C10_indent '
            '(a token that begins a line is preceded by exactly indentwidth x token_depth spaces) - the last two for trees without a '
            'one-line if that has an else part and without a trailing table field separator (the counter is known to differ there; '
@@ -47,7 +48,7 @@ ASSUMPTIONS = ['indentwidth is an integer (0-8 in the monitor domain); programs 
                'interior lines of multi-line block comments and long strings are token content, not layout: re-indentations leave them alone',
                'blank lines before the first line of the file are not "separating lines" (the output may start with up to two)']
 CLAIM = dict(
-    text=("Nineteen theorems in Properties/C10.v (Coq, closed under the global context) about fmt_run, the model of the 15-step re.sub "
+    text=("Twenty theorems in Properties/C10.v (Coq, closed under the global context) about fmt_run, the model of the 15-step re.sub "
           "pipeline of LuaFormatterWriter._get_code_for_spaces, for white-space/comment runs of EVERY length, every indent width and "
           "depth, at the start / middle / end of the file: C10_run_canonical_form (exact line-by-line form of the output), "
           "C10_run_depends_on_norm (runs equal modulo blanks at line edges are formatted identically: re-indentation invariance "
@@ -61,7 +62,8 @@ CLAIM = dict(
           "inside the writer domain of C09_aligned with tidy token codes: C10_shape (the whole luafmt output has no line ending in a "
           "blank and never three line feeds in a row) and C10_indent_counter_partial (every code token that begins a line is preceded "
           "by exactly indentwidth x n spaces, n >= 0 the nesting counter at its white-space run), obtained by discharging the "
-          "hypotheses separated / codes_ok / no_end of the chunk theorems from the alignment proof (Proofs/AstWriterLines.v); and, for trees "
+          "hypotheses separated / codes_ok / no_end of the chunk theorems from the alignment proof (Proofs/AstWriterLines.v), likewise "
+          "C10_first_line (a prefix of the output that is blanks only, without a line feed, is empty); and, for trees "
           "without a one-line if with an else part and without a trailing table field separator, C10_indent_link (every non-empty "
           "white-space run handed to _get_code_for_spaces ends at a significant token i and is passed _indent = token_depth ts i, the "
           "number of blocks and brackets open at token i of the input by the reference rules of Spec/FmtShape.v restated on lexer tokens "
